@@ -35,6 +35,7 @@ RULE = (
     "transition == the same measurement on fresh caches. Non-trivial: a measurement whose source state holds "
     "trees of another binning or role for one of the catalogs it uses. One case = the BFS below one first operation. "
     "Optimised-interpreter part: five fixed histories replayed with PYTHONOPTIMIZE=1 (assert statements stripped). "
+    "Process part: every ordered pair of measurements {cross, auto} x {B1r, B2} x scales {s1, s3 (reaches across patches), sk (kpc)} in one fresh interpreter vs the second alone in another fresh interpreter. "
     "Handles part: every history of <= depth operations {build_trees(B1r|B2|unbinned), crosscorrelate(B1r|B2)} x {handle 1, "
     "handle 2}, two Catalog objects opened once on the same directories and kept alive; each history runs from pristine "
     "directories (stateless), the oracle is applied to every measurement that ends a history."
@@ -51,7 +52,10 @@ BINNINGS = {
     "B1e": ([0.1, float(np.nextafter(E, 1.0)), 0.4], "right"),
     "B2": ([0.1, 0.3, 0.4], "right"), "B3": ([0.1, E, 0.3, 0.4], "right"), "U": (None, "right"),
 }
-SCALES = {"s1": ([0.3], [1.1]), "s2": ([0.2, 0.9], [0.8, 2.6])}
+SCALES = {"s1": ([0.3], [1.1]), "s2": ([0.2, 0.9], [0.8, 2.6]),
+          # s3 reaches across the two patches (cross-patch pairs exist only here), sk is a physical scale (the angle
+          # depends on the bin centres)
+          "s3": ([1.0], [4.5]), "sk": ([500.0], [6000.0], "kpc")}
 
 
 def all_ops(tier):
@@ -98,6 +102,12 @@ def cases(tier, seed):
                  [["auto", "B1r", "s1"], ["swapped", "B1r", "s1"]],
                  [["build", "R", "B3", False], ["build", "R", "B1e", False], ["auto", "B1r", "s1"]]):
         out.append(dict(part="pyopt", replay_history=hist, tier=tier, seed=seed))
+    # two measurements in one fresh interpreter (process-lifetime state): every ordered pair over binnings x scale sets
+    meas = [[k, b, s_] for k in ("cross", "auto") for b in ("B1r", "B2") for s_ in ("s1", "s3", "sk")]
+    for first, second in itertools.product(meas, repeat=2):
+        if first == second or (tier == "quick" and first[0] != second[0]):
+            continue
+        out.append(dict(part="process", replay_history=[first, second], tier=tier, seed=seed))
     return out
 
 
@@ -179,8 +189,8 @@ def config_for(b, s):
     import yaw
 
     edges, closed = BINNINGS[b]
-    rmin, rmax = SCALES[s]
-    return yaw.Configuration.create(rmin=rmin, rmax=rmax, unit="deg", edges=edges, closed=closed)
+    rmin, rmax, *unit = SCALES[s]
+    return yaw.Configuration.create(rmin=rmin, rmax=rmax, unit=unit[0] if unit else "deg", edges=edges, closed=closed)
 
 
 def obs(cfs):
@@ -320,6 +330,44 @@ def run_handles(case):
     return res
 
 
+def observe_history(history):
+    """Fresh fixture, the operations of the history one after the other in this process; observation of the last one."""
+    root = runner.fresh_dir("c07o")
+    make_fixture(root)
+    last = None
+    for op in history:
+        last = apply(list(op), root)
+    return last
+
+
+def run_process(case):
+    """Two measurements in one fresh interpreter vs the second one alone in another fresh interpreter."""
+    import json
+    import subprocess
+    import sys
+
+    here = os.path.dirname(os.path.dirname(os.path.abspath(__file__)))
+    code = ("import json, os, sys; sys.path.insert(0, %r); sys.path.insert(0, os.path.join(os.environ.get('VERIF_REPO', '/repo'), 'src'));"
+            "from checks import c07; c07.setup(); print('RESULT ' + json.dumps(c07.observe_history(json.loads(sys.argv[1]))))") % here
+
+    def run(history):
+        p = subprocess.run([sys.executable, "-c", code, json.dumps(history)], capture_output=True, text=True)
+        lines = [l for l in p.stdout.splitlines() if l.startswith("RESULT ")]
+        return json.loads(lines[-1][7:]) if lines else "FAILED " + (p.stderr.strip().splitlines() or ["?"])[-1][:200]
+
+    hist = case["replay_history"]
+    got, want = run(hist), run(hist[-1:])
+    res = dict(nontrivial=True, key=case, counters=dict(executions=2, states=2, transitions=len(hist) + 1,
+                                                      measurements=2, nontrivial_measurements=1))
+    if got != want:
+        op = hist[-1]
+        res.update(status="violation", violations=[dict(
+            signature=f"C07/one-process/{op[0]}:{op[1]}:{op[2]}/differs-from-fresh-process/after:{hist[0][1]}:{hist[0][2]}",
+            what=f"{op} after {hist[:-1]} in the same interpreter differs from the same measurement made alone in a fresh "
+                 f"interpreter on fresh caches ({str(got)[:60]} vs {str(want)[:60]})")])
+    return res
+
+
 def run_pyopt(case):
     import json
     import subprocess
@@ -331,20 +379,25 @@ def run_pyopt(case):
             "from checks import c07; c07.setup(); r = c07.run_case(json.loads(sys.argv[1]));"
             "print('RESULT ' + json.dumps(dict(status=r.get('status', 'ok'), violations=[dict(signature=v['signature'], what=v['what'])"
             " for v in r.get('violations', [])], optimised=not __debug__)))") % here
-    env = dict(os.environ, PYTHONOPTIMIZE="1")
+    env = dict(os.environ)
+    if case["part"] == "pyopt":
+        env["PYTHONOPTIMIZE"] = "1"
+    else:
+        env.pop("PYTHONOPTIMIZE", None)
     p = subprocess.run([sys.executable, "-c", code, json.dumps(inner)], capture_output=True, text=True, env=env)
     lines = [l for l in p.stdout.splitlines() if l.startswith("RESULT ")]
     if not lines:
         raise RuntimeError(f"optimised-interpreter run failed: {p.stderr[-1500:]}")
     rep = json.loads(lines[-1][7:])
-    if not rep["optimised"]:
-        raise RuntimeError("subprocess did not run with assertions stripped")
+    if rep["optimised"] != (case["part"] == "pyopt"):
+        raise RuntimeError("subprocess did not run in the requested interpreter mode")
     res = dict(nontrivial=True, key=case, counters=dict(executions=1, states=1, transitions=len(case["replay_history"]),
                                                       measurements=1, nontrivial_measurements=1))
     if rep["violations"]:
         res.update(status="violation", violations=[dict(
-            signature="C07/python-O/" + v["signature"].split("/", 1)[1],
-            what="with assert statements stripped (python -O / PYTHONOPTIMIZE=1): " + v["what"]) for v in rep["violations"][:2]])
+            signature=("C07/python-O/" if case["part"] == "pyopt" else "C07/one-process/") + v["signature"].split("/", 1)[1],
+            what=("with assert statements stripped (python -O / PYTHONOPTIMIZE=1): " if case["part"] == "pyopt" else
+                  "two measurements in one fresh interpreter: ") + v["what"]) for v in rep["violations"][:2]])
     return res
 
 
@@ -353,6 +406,8 @@ def run_case(case):
         return run_handles(case)
     if case.get("part") == "pyopt":
         return run_pyopt(case)
+    if case.get("part") == "process":
+        return run_process(case)
     ops = all_ops(case["tier"])
     root = runner.fresh_dir("c07")
     live = os.path.join(root, "live")
